@@ -65,3 +65,20 @@ Qed.
 (* and the divisor table index digits-1 is inside its 9 entries exactly on the validated digit range *)
 Theorem divisor_index_in_bounds digits : (1 <= digits <= 9)%Z -> (Z.to_nat (digits - 1) < length divisor_table)%nat.
 Proof. intros H. cbn [divisor_table length]. lia. Qed.
+
+Lemma hmac_accesses_in_bounds t key_len msg_len :
+  forallb (fun ar => in_array (fst ar) (snd ar)) (hmac_accesses t key_len msg_len) = true.
+Proof.
+  unfold hmac_accesses, in_array. cbv zeta. cbn [forallb fst snd].
+  assert (Hd : (digest_size t <= block_size t)%nat) by (destruct t; cbn; lia).
+  destruct (Nat.ltb_spec (block_size t) key_len) as [H|H];
+    repeat (apply andb_true_intro; split); try reflexivity; apply Nat.leb_le; lia.
+Qed.
+Lemma hmac_sizes_guarded t msg_len : msg_len <= 2 ^ 64 - 1 - N.of_nat (block_size t) -> hmac_sizes_no_wrap t msg_len = true.
+Proof.
+  intros H. unfold hmac_sizes_no_wrap.
+  assert (Hb : (block_size t <= 128)%nat) by (destruct t; cbn; lia).
+  assert (Hd : (digest_size t <= 64)%nat) by (destruct t; cbn; lia).
+  change (2 ^ 64) with 18446744073709551616 in *.
+  apply andb_true_intro; split; apply N.ltb_lt; lia.
+Qed.
